@@ -135,6 +135,9 @@ func H_Block2() {
 			spA.status, spA.nBids, spA.nSched = types.AuctionStatusStarted, 1, nd.Pick("a.nSched", 2)
 		case 1:
 			spA.status, spA.batch, spA.nBids = types.AuctionStatusStarted, true, 1
+			// any round: the final one, or an earlier one that extends or settles early (second settlement branch)
+			spA.nEnd = nd.Pick("a.nEnd", nd.Param("maxEnd", 2)) + 1
+			spA.hasMatchedLen = spA.nEnd >= 2
 		case 2:
 			spA.status, spA.nSched, spA.nBids = types.AuctionStatusVesting, 1, 0
 		}
